@@ -168,12 +168,18 @@ pub fn record(out_path: &str, only_state: Option<&str>) -> i32 {
                 let locs: Vec<String> = evs.iter().filter(|e| e.kind.starts_with("Acq")).map(|e| e.loc.replace("/repo/", "")).collect();
                 rows.push(json!({"state": state, "method": method, "variant": vi, "res": r.res(), "program": prog, "locs": locs, "hung": hung}));
                 if hung {
-                    break; // this instance is wedged now
+                    // this instance is wedged now; do not even try to close it
+                    std::mem::forget(p.inst.methods.take());
+                    break;
                 }
             }
             p.inst.close();
         }
     }
     std::fs::write(out_path, serde_json::to_string(&json!({"rows": rows})).unwrap()).unwrap();
+    if rows.iter().any(|r| r["hung"] == json!(true)) {
+        // a handler that never returned still sits on a runtime worker thread: an orderly shutdown would wait for it for ever
+        std::process::exit(0);
+    }
     0
 }
